@@ -131,17 +131,113 @@ def shape_of(prog, f, side):
                         ln = se.operand(d[3]['rv']['ops'][0], (b, None))
             visitor = ty_str(g[-1]).split('<')[0] if side == 'de' and g else None
             inner = norm_ty(g[1], side) if n == 'serialize_newtype_struct' and len(g) > 1 else None
-            ev.append(('cont', n.replace('deserialize_', '').replace('serialize_', ''), name, str(ln) if ln is not None else None, visitor, inner, b if fn is f else None))
+            ev.append(('cont', n.replace('deserialize_', '').replace('serialize_', ''), name, str(ln) if ln is not None else None, visitor, inner, b if fn is f else None,
+                       (g[-1] if side == 'de' and g else (g[1] if n == 'serialize_newtype_struct' and len(g) > 1 else None))))
         elif n in elem:
             T = g[1] if len(g) > 1 else None
             fld = next((op_const(a)['s'] for a in t['args'] if op_const(a) and isinstance(op_const(a).get('s'), str) and op_const(a)['s'].startswith('"')), None)
-            ev.append(('elem', norm_ty(T, side) if T is not None else None, fld, loop, key))
+            ev.append(('elem', norm_ty(T, side) if T is not None else None, fld, loop, key, T))
         elif n in WALKS:
             ev.append(('walk', n.replace('deserialize_', '').replace('serialize_', ''), key))
         elif n in ('serialize', 'deserialize') and (t['f'].get('trait') or '').startswith('resource::'):
             ev.append(('walk', 'resources', key))
     _SHAPE_CACHE[ck] = ev
     return ev
+
+
+def subst_ty(t, mapping):
+    """Replace type parameters by name."""
+    if isinstance(t, dict):
+        if t.get('k') == 'param' and t.get('name') in mapping:
+            return mapping[t['name']]
+        return {k: subst_ty(v, mapping) for k, v in t.items()}
+    if isinstance(t, list):
+        return [subst_ty(x, mapping) for x in t]
+    return t
+
+
+def adt_impl_fn(prog, ty, traits, fname):
+    """(fn, {impl type parameter: instantiation}) of `impl <trait> for <the ADT of ty>`"""
+    if not isinstance(ty, dict) or ty.get('k') != 'adt':
+        return None, {}
+    c = [f for f in prog.fns.values() if f.name == fname and f.impl and f.impl['trait'] and f.impl['trait']['path'] in traits
+         and f.impl['self'].get('k') == 'adt' and f.impl['self']['path'] == ty['path']]
+    if len(c) != 1:
+        return None, {}
+    f = c[0]
+    mp = {}
+    ia = [a for a in f.impl['self'].get('args', []) if a.get('k') != 'region']
+    ta = [a for a in ty.get('args', []) if a.get('k') != 'region']
+    for a, b in zip(ia, ta):
+        if a.get('k') == 'param':
+            mp[a['name']] = b
+    return f, mp
+
+
+def type_shape(prog, ty, side, depth=0):
+    """What a value of this type writes (side 'ser': its Serialize impl) or reads (side 'de': its Visitor::visit_seq, or
+    the visitor its DeserializeSeed/Deserialize impl hands to the container call): (fn, declared length, elements
+    [(normalised type, in a loop, type with the instantiation substituted)], walks)."""
+    if depth > 3:
+        return None
+    if side == 'ser':
+        f, mp = adt_impl_fn(prog, ty, ('serde::Serialize',), 'serialize')
+        if f is None:
+            return None
+        sh = shape_of(prog, f, 'ser')
+    else:
+        f, mp = adt_impl_fn(prog, ty, ('serde::de::Visitor',), 'visit_seq')
+        if f is None:
+            d, mp = adt_impl_fn(prog, ty, ('serde::de::DeserializeSeed', 'serde::Deserialize'), 'deserialize')
+            if d is None:
+                return None
+            conts = [e for e in shape_of(prog, d, 'de') if e[0] == 'cont' and e[7] is not None]
+            if len(conts) != 1:
+                return None
+            return type_shape(prog, subst_ty(conts[0][7], mp), 'de', depth + 1)
+        sh = shape_of(prog, f, 'de')
+    elems = []
+    for e in sh:
+        if e[0] == 'elem':
+            T = subst_ty(e[5], mp) if e[5] is not None else None
+            elems.append((norm_ty(T, side) if T is not None else None, e[3], T))
+    lens = [e[3] for e in sh if e[0] == 'cont']
+    return (f, lens, elems, [e[1] for e in sh if e[0] == 'walk'])
+
+
+def reach_walks(prog, ty, side, depth=0):
+    """Registry walks reached from a type through the element types it writes / reads."""
+    sh = type_shape(prog, ty, side)
+    if sh is None or depth > 5:
+        return set()
+    out = set(sh[3])
+    for n, loop, T in sh[2]:
+        if isinstance(T, dict) and T.get('k') == 'adt':
+            out |= reach_walks(prog, T, side, depth + 1)
+    return out
+
+
+def hr_branches(prog, f, side):
+    """{True/False: type written (writer) / visitor type (reader)} per outcome of is_human_readable in f, or None."""
+    E = pathsem.analyse(prog, f, max_paths=5000)
+    out = {}
+    names = SER_CONT if side == 'ser' else DE_CONT
+    for p in E.paths:
+        if p.ended != 'return':
+            continue
+        hr = p.calls(lambda e: e['name'] == 'is_human_readable')
+        if len(hr) != 1:
+            return None
+        v = p.lookup(hr[0]['ret'])
+        conts = p.calls(lambda e: e['name'] in names and 'serde' in e['path'])
+        if not isinstance(v, bool) or len(conts) != 1:
+            return None
+        g = [a for a in conts[0]['f']['args'] if a.get('k') != 'region']
+        T = (g[1] if len(g) > 1 else None) if side == 'ser' else (g[-1] if g else None)
+        if T is None:
+            return None
+        out.setdefault(v, []).append(strip_regions(T))
+    return out
 
 
 def find_fn(prog, pred):
@@ -274,18 +370,22 @@ def x1_wire_shape(prog):
     if w is None or d is None or vn is None:
         r.viol('X1', 'Archetype/missing', '-', 'Archetype writer/reader not found')
     else:
-        for enc, wn, vname in (('row', 'SerializeArchetypeByRow', 'VisitArchetypeByRow'), ('column', 'SerializeArchetypeByColumn', 'VisitArchetypeByColumn')):
-            ww = sel(prog, wn, ('serde::Serialize',), 'serialize')
-            vv = visitor_fn(prog, vname)
-            if ww is None or vv is None:
+        wb, rb = hr_branches(prog, w, 'ser'), hr_branches(prog, vn, 'de')
+        for enc, hrv in (('row', True), ('column', False)):
+            wt = wb.get(hrv) if wb else None
+            rt = rb.get(hrv) if rb else None
+            ws_ = type_shape(prog, wt[0], 'ser') if wt and all(ty_eq(x, wt[0]) for x in wt) else None
+            rs_ = type_shape(prog, rt[0], 'de') if rt and all(ty_eq(x, rt[0]) for x in rt) else None
+            if ws_ is None or rs_ is None:
                 r.viol('X1', 'Archetype/%s/missing' % enc, '-', '%s encoding writer/visitor not found' % enc)
                 continue
-            a = [(e[1], e[3]) for e in shape_of(prog, ww, 'ser') if e[0] == 'elem']
-            b = [(e[1], e[3]) for e in shape_of(prog, vv, 'de') if e[0] == 'elem']
+            ww, wl, we_, _ = ws_
+            vv, _, re_, _ = rs_
+            a = [(n, l) for n, l, T in we_]
+            b = [(n, l) for n, l, T in re_]
             r.inst('Archetype %s encoding: %s' % (enc, a))
             if a != b:
                 r.viol('X1', 'Archetype/%s/element-sequence' % enc, vv.loc(), '%s encoding: writer elements %s, reader elements %s' % (enc, a, b))
-            wl = [e[3] for e in shape_of(prog, ww, 'ser') if e[0] == 'cont']
             if wl != [str(Lin.k(len(a)))]:
                 r.viol('X1', 'Archetype/%s/length' % enc, ww.loc(), '%s encoding declares length %s but writes %d elements' % (enc, wl, len(a)))
     # registry walks: element type per step
@@ -313,33 +413,20 @@ def x3_human_readable(prog):
         if f is None:
             r.viol('X3', side + '/missing', '-', 'Archetype %s not found' % side)
             continue
-        body = f.body
-        hr = [(b, t) for b, t in body.calls(lambda c: c['name'] == 'is_human_readable')]
-        r.inst('Archetype %s: is_human_readable x%d' % (side, len(hr)))
-        if len(hr) != 1:
-            r.viol('X3', side + '/no-branch', f.loc(), '%s does not choose the encoding by is_human_readable' % side)
+        br = hr_branches(prog, f, 'ser' if side == 'writer' else 'de')
+        r.inst('Archetype %s: is_human_readable decides %s' % (side, sorted(br) if br else None))
+        if not br or set(br) != {True, False}:
+            r.viol('X3', side + '/no-branch', f.loc(), '%s does not choose the encoding by is_human_readable (one container per outcome expected)' % side)
             continue
-        hb, ht = hr[0]
-        cl = ht['dest']['l']
-        sw = [(b, body.term(b)) for b in range(body.n) if body.term(b)['k'] == 'switch' and op_local(body.term(b)['discr']) == cl and 0 in body.term(b)['values']]
-        if len(sw) != 1:
-            r.viol('X3', side + '/branch-shape', f.loc(), 'is_human_readable result does not control a two-way branch')
-            continue
-        sb, st = sw[0]
-        tt, ft = st['otherwise'], st['targets'][st['values'].index(0)]
-        def enc_on(edge_t):
-            names = []
-            for b, t in body.calls():
-                if body.edge_dominates((sb, edge_t), b):
-                    for a in t['f']['args']:
-                        s = ty_str(a)
-                        if 'ByRow' in s:
-                            names.append('row')
-                        if 'ByColumn' in s:
-                            names.append('column')
-            return set(names)
-        if enc_on(tt) != {'row'} or enc_on(ft) != {'column'}:
-            r.viol('X3', side + '/encodings-swapped', f.loc(), '%s uses %s for human-readable and %s for compact formats; expected row / column' % (side, sorted(enc_on(tt)), sorted(enc_on(ft))))
+        sd = 'ser' if side == 'writer' else 'de'
+        enc = {}
+        for v, tys in br.items():
+            ws_ = set()
+            for T in tys:
+                ws_ |= reach_walks(prog, T, sd)
+            enc[v] = sorted(x.replace('components_by_', '') for x in ws_)
+        if enc[True] != ['row'] or enc[False] != ['column']:
+            r.viol('X3', side + '/encodings-swapped', f.loc(), '%s uses %s for human-readable and %s for compact formats; expected row / column' % (side, enc[True], enc[False]))
     return r
 
 
